@@ -22,7 +22,7 @@ Semantics of the subset (the translator's conventions; printed in the generated 
   * an adjacency matrix arrives in a CONTAINER (`SrcGH.Container`: nested lists, ndarray, scipy sparse of some format); an
     integer array is the pair of its entries and its dtype (`IntArr`); a float matrix that may hold `inf` is a `DMat`;
   * the two call forms of `gromov_hausdorff` are the two values of the test `AH is None`: the function is translated once per
-    form (`GHArgs.pair` / `GHArgs.coll`), the test being the constant it is in that form;
+    form (`GHArgs.pair` / `GHArgs.coll`), the tests `AH is None` / `AH is not None` being the constants they are in that form;
   * `for x in range(…)` is a structural recursion over the list of indices (`<f>_loop`, nested: `<f>_loop_2`) carrying the
     names the body re-assigns; the other names it reads are leading parameters;
   * an `if` whose arms fall through yields the names its arms assign (an `Except` when an arm can raise); an arm that raises
@@ -238,13 +238,11 @@ def _tocsr(tr, b):
 
 @idiom("shortest_path(_A, directed=False, unweighted=True)", "shortest_path A", "PARAMETER (contract `CsgraphContract`)")
 def _sp(tr, b):
-    tr.uses_csgraph = True
     return "raise", "shortest_path %s" % tr.expr(b["_A"], "C").a(), "DM"
 
 
 @idiom("connected_components(_A, directed=False)", "connected_components A", "PARAMETER (contract `CsgraphContract`)")
 def _cc(tr, b):
-    tr.uses_csgraph = True
     return "raise", "connected_components %s" % tr.expr(b["_A"], "C").a(), ("N", "LN")
 
 
@@ -362,7 +360,6 @@ class Fn:
         self.loops = []               # texts of the loop definitions, in order of appearance
         self.nloops = 0
         self.warnings = []            # `warnings.warn(...)` calls and `raise` statements, as written
-        self.uses_csgraph = False
         self.consts = dict((form or {}).get("consts", {}))
 
     # --- names
@@ -466,8 +463,6 @@ class Fn:
 
     def call(self, node):
         f = dotted(node.func)
-        if f == "np.iinfo" or (isinstance(node.func, ast.Attribute) and False):
-            raise Shape("np.iinfo outside `np.iinfo(t).max`")
         callee = self.unit.cfgs.get(f)
         if callee is not None and f != self.cfg["func"]:
             return self.call_generated(node, callee)
@@ -480,8 +475,6 @@ class Fn:
             raise Shape("call of %s: %s" % (callee["func"], ast.unparse(node)))
         args = [self.expr(a, ty) for a, (_, ty) in zip(node.args, callee["params"])]
         lead = "shortest_path connected_components " if callee.get("csgraph") else ""
-        if callee.get("csgraph"):
-            self.uses_csgraph = True
         return self.bind("%s %s%s" % (callee["lean"], lead, " ".join(a.a() for a in args)), callee["ret"])
 
     def call_estimate(self, node):
@@ -677,9 +670,14 @@ class Fn:
 
     def cond_text(self, test):
         """an `if` test as a Lean condition (a Bool coerces), or a constant of this call form"""
+        # `P is None` / `P is not None` for a parameter `P` that this call form fixes (and that is never re-assigned)
+        if (isinstance(test, ast.Compare) and len(test.ops) == 1 and isinstance(test.ops[0], (ast.Is, ast.IsNot))
+                and isinstance(test.left, ast.Name) and isinstance(test.comparators[0], ast.Constant)
+                and test.comparators[0].value is None and test.left.id in self.consts):
+            if test.left.id in self.unit.assigned_in.get(self.cfg["func"], ()):
+                raise Shape("`%s` is re-assigned: `%s` is not a constant of the call form" % (test.left.id, ast.unparse(test)))
+            return self.consts[test.left.id] == isinstance(test.ops[0], ast.Is)
         key = ast.unparse(test)
-        if key in self.consts:
-            return self.consts[key]
         v = self.expr(test, "B")
         if self.pre:
             raise Shape("a test that can raise: %s" % key)
@@ -772,7 +770,6 @@ class Fn:
             return Raw(" ".join(x for x in [lname, lead[1], " ".join(sub_closure), "rest"] + [sub.env[n][0] for n in carried] if x))
         sub_closure = [sub.env[n][0] for n in closure]
         body = sub.block(list(s.body), again)
-        self.uses_csgraph = self.uses_csgraph or sub.uses_csgraph
         self.nloops = sub.nloops
         cty = " × ".join(lty(self.env[n][1], True) for n in carried)
         text = ["def %s %s : List Nat → %s → Except GhErr (%s)" % (
@@ -847,9 +844,9 @@ TARGETS = [
     dict(func="gromov_hausdorff", lean="gromov_hausdorff", ret=("R", "ST"), lead=CSG + [EST], raises="tooFewGraphs",
          opaque_params=["mapping_sample_size_order"], variables="variable {σ β : Type}",
          tail_params="(zero : β) (args : GHArgs) (s : σ)",
-         forms=[dict(name="coll", pat=".coll AG", params=[("AG", "LC")], consts={"AH is None": True},
+         forms=[dict(name="coll", pat=".coll AG", params=[("AG", "LC")], consts={"AH": True},
                      ret=("result", "Result.mats", "FM")),
-                dict(name="pair", pat=".pair AG AH", params=[("AG", "C"), ("AH", "C")], consts={"AH is None": False},
+                dict(name="pair", pat=".pair AG AH", params=[("AG", "C"), ("AH", "C")], consts={"AH": False},
                      ret=("result", "Result.pair", "V"))]),
 ]
 for _c in TARGETS:
@@ -895,6 +892,13 @@ class Unit:
         self.fns = {n.name: n for n in tree.body if isinstance(n, ast.FunctionDef)}
         self.cfgs = {c["func"]: c for c in TARGETS}
         self.rng_calls = {"estimate"}
+        # per function: the names it (re)assigns anywhere (a parameter among them is not a constant of a call form)
+        self.assigned_in = {}
+        for name, fn in self.fns.items():
+            try:
+                self.assigned_in[name] = set(assigned_names(strip_doc(fn.body), set()))
+            except Shape:
+                self.assigned_in[name] = {a.arg for a in fn.args.args}
 
     def check_params(self, cfg, fn):
         a = fn.args
@@ -984,7 +988,7 @@ HEADER = (
     "  * an adjacency matrix arrives in a `Container` (nested lists / ndarray / scipy sparse of some format / unknown); an integer\n"
     "    array is `IntArr` (entries, dtype); a float matrix that may hold `inf` is a `DMat` (`none` = `inf`);\n"
     "  * the two call forms of `gromov_hausdorff` are the two values of `AH is None`: the body is translated once per form\n"
-    "    (`GHArgs.coll` / `GHArgs.pair`) with that test the constant it is; `(AG, AH)` is the list `[AG, AH]`;\n"
+    "    (`GHArgs.coll` / `GHArgs.pair`) with `AH is None` / `AH is not None` the constants they are; `(AG, AH)` is the list `[AG, AH]`;\n"
     "  * `for x in range(…)` is a structural recursion over the list of indices (`<f>_loop`, nested `<f>_loop_2`) carrying the names\n"
     "    the body re-assigns; the other names it reads are leading parameters; `range(a, b)` is `pyRange a b`;\n"
     "  * an `if` whose arms fall through yields the names its arms assign (an `Except` if an arm can raise); an arm that raises or\n"
@@ -1033,7 +1037,6 @@ def render_file(key, root):
         err0 = "%s: %s" % (type(e).__name__, e)
     fl = [(c["func"], unit.fns.get(c["func"]) if unit else None, None) for c in TARGETS]
     o.append(bindings_section(key, tree, fl, BINDINGS.get(key), err0, info))
-    broken_callee = set()
     for cfg in TARGETS:
         f = cfg["lean"]
         o.append("/-! ### `%s`  (from `%s` of %s) -/" % (f, cfg["func"], py))
